@@ -56,8 +56,18 @@ class Interp:
         self.sym_attr = sym_attr or {}  # sort name -> callable(I, sym, attrname)
         self.frames: list[Frame] = []
         self.pure = 0  # >0: evaluating a specification-like expression, no forking allowed
+        self.pure_guards: list = []
 
     # ------------------------------------------------------------------ helpers
+    def guard(self, cond, what=""):
+        """a condition the real code needs in order not to raise: in normal mode a branch (the other side raises);
+        in pure mode (lazy comprehension / key function evaluated on a symbolic element) it is collected and
+        becomes a safety obligation of the enclosing construct"""
+        if self.pure:
+            self.pure_guards.append(cond if not isinstance(cond, Sym) else cond.e)
+            return True
+        return self.ctx.branch(cond, what)
+
     def eq_formula(self, a, b):
         if isinstance(a, tuple) and isinstance(b, tuple):
             if len(a) != len(b):
@@ -1074,6 +1084,10 @@ class Interp:
                 it = self.iterate(self.eval(e.generators[0].iter))
                 if isinstance(it, SymList):
                     return self.invariant_comp(e, it, spec, (self.frames[-1].qualname, 0))
+        if len(e.generators) == 1 and not e.generators[0].ifs:
+            it0 = self.iterate(self.eval(e.generators[0].iter))
+            if isinstance(it0, SymList) and self.default_unroll(it0) is None:
+                return self.lazy_map(e, it0)
         out = []
         self.frames.append(self._comp_frame())
         try:
@@ -1081,6 +1095,31 @@ class Interp:
         finally:
             self.frames.pop()
         return out
+
+    def lazy_map(self, e, L):
+        """[f(x) for x in L] with a pure f over a symbolic list: the list L' with L'[i] = f(L[i]), evaluated
+        lazily; what f needs in order not to raise becomes one safety obligation over a fresh index."""
+        frame = self._comp_frame()
+        g = e.generators[0]
+
+        def f(i):
+            self.frames.append(frame)
+            self.pure += 1
+            try:
+                self.assign(g.target, L.get(i))
+                return self.eval(e.elt)
+            finally:
+                self.pure -= 1
+                self.frames.pop()
+        j0 = self.ctx.fresh("j", Int)
+        n_before = len(self.pure_guards)
+        f(j0)
+        guards = self.pure_guards[n_before:]
+        del self.pure_guards[n_before:]
+        if guards:
+            self.ctx.oblige(f"{self.frames[-1].qualname}/comprehension-does-not-raise", z3.Implies(AND(j0 >= 0, j0 < L.n), AND(*guards)),
+                            kind="safety", props=getattr(self, "safety_props", ()))
+        return SymList(L.n, f)
 
     def e_GeneratorExp(self, e):
         return self.e_ListComp(e)
